@@ -883,3 +883,65 @@ CHECKS["C11"].update({
     "technique": ("Lean 4 proof over the builder model (exactness from the specification's rules, permutation, rejection classes, public "
                   "extend_schema strict/lax) + schema-dump correspondence + declared-content and labelled-defect oracles"),
 })
+
+
+# ---- narrative of C06 brought up to date with the tree (builder ov2); replaces the accumulated text above ----
+CHECKS["C06"].update({
+    "text": ("MODELLED: the whole validation chain - TypeInfoVisitor's stacks (list-item types included), ChainedVisitor with the repaired SkipNode "
+             "semantics, all 26 rule visitors with their accumulators, VariablesCollector (fixes V3/V4), the fragment-cycle search, and the field-merge "
+             "search of OverlappingFieldsCanBeMerged in BOTH forms: un-memoised (code before fix 7e75356) and the MEMOISED search /repo runs (runM / "
+             "overlapMemoRun: compared-pairs memo keyed by the triple, compared-fragments set, parent-type cache). The rule list must equal SPECIFIED_RULES "
+             "RE-EXTRACTED from validate.py each run (rules_match_source). PROVED: every one of the 26 rules has a rule_*_iff theorem - the visitor, run "
+             "through the model's chain on any document and schema, is silent exactly when its declarative clause holds (ProvedAll = Rule.all, "
+             "Spec.Unproved = []); for the overlap rule as /repo runs it rule_overlapping_fields_memo_iff (memoised rule silent <=> clause of 5.3.2) under "
+             "ParentsAgree, no fragment named \"\" and WfIds only (no NoCrash, no rank bound: overlap_memo_terminates, rankSynB_of_wfIds), with "
+             "overlap_memo_complete / overlap_memo_never_loses / overlap_memo_neutral_side and runM_alone_eq (the chain the driver runs with the rule alone "
+             "IS overlapMemoRun). Headline statements for the validator /repo runs (Props/C06_head_memo.lean): verdict_iff_all_memo, "
+             "accepted_spec_valid_all_memo, spec_valid_accepted_all_memo, attribution_all_memo, verdict_memo_neutral, with DocOkM = wfIdsB (parser "
+             "guarantee, checked by the driver on every document), noMetaSubsB (no sub-selection below __schema/__type/__typename: counted exclusion), "
+             "non-empty fragment names, SchemaOutputs; the same for the un-memoised search with the static rank check (Props/C06_head.lean). The clauses "
+             "state what the CODE implements; where that is not the specification's clause the difference is a machine-checked refutation "
+             "(values_spec_clause_refuted = V8, overlap_full_statement_refuted, V3/V4 order dependence of the unfixed collector). INVARIANCE under the six "
+             "transformations of the statement: rule by rule for ALL 26 rules (SilentM: the overlap rule is the memoised one /repo runs) "
+             "perm_definitions_all26, tr_invariance_all26 with perm_selections_all26 / perm_arguments_all26 / alpha_fragments_all26, "
+             "alpha_aliases_all26, alpha_variables_all26 (Props/C06_inv11..13.lean) - the 25 other rules by the *_all25_partial theorems, the "
+             "overlap rule by transporting the clause of 5.3.2 along a SIMULATION of documents (Lemmas/ValidateOverlapSim*.lean: OvSim, "
+             "OvSim.clause_iff; instances for selection / argument order + fragment renaming, aliases, variables) + "
+             "rule_overlapping_fields_memo_iff; and for the VERDICT of the chain (every rule silent) six_transformations_verdict_memo "
+             "(Props/C06_inv14.lean: tr_ / alpha_aliases_ / alpha_variables_ / perm_definitions_verdict_invariance_memo), whose only "
+             "hypotheses are DocOkM, SchemaOutputs, injectivity of the renamings and 'no empty name produced' - unique argument / fragment / "
+             "variable names, operation keys and ParentsAgree are clauses of other rules of the same chain. Necessity witnesses: "
+             "perm_arguments_overlap_needs_unique_argument_names, alpha_variables_overlap_needs_injectivity, "
+             "alpha_aliases_overlap_needs_injectivity. OverlapSide is characterised exactly (overlapSide_iff_tableAcyclic), which puts duplicate "
+             "fragment names inside the memo-neutrality theorem (overlap_memo_neutral_tableAcyclic). Why noMetaSubsB is a real exclusion is "
+             "machine-checked (Props/C06_overlap_meta.lean: meta_sibling_hides_report, parentsAgree_false_below_meta, "
+             "memo_iff_needs_parentsAgree; reproduced on the real validator, corpus meta_subselections). "
+             "THE VERDICT OF THE CHAIN IS THE CONJUNCTION OF THE RULES RUN ALONE (Props/C06_chain.lean; until now only exercised): frame "
+             "property of the 26 visitors (framed_enterRule, framed_enterRuleM: a rule reads / writes only its own part of the rule state, "
+             "prepends only its own errors, its SkipNode flag depends on its own part; Lemmas/ValidateChainFrame*.lean, 26 rules x 14 node kinds), "
+             "chainPar_silent_iff (any list of pairwise different rules: the chain records no error iff every member alone records none; "
+             "skip_reports + equal flags => nobody skips while one side is quiet), hence chain_silent_iff_alone, verdict_iff_alone and, for the "
+             "chain /repo runs (runM = the model the driver answers with), chainM_silent_iff_alone, chainM_silent_iff_spec / verdictM_iff_spec "
+             "(accepted iff no exception and the clauses of all 26 rules hold; headline for /repo HEAD: verdict_chain_iff), chainM_attribution "
+             "(exactly one clause violated => the chain's error list contains an error of THAT rule's visitor; chainPar_attribution) and "
+             "chainM_six_transformations (verdict of the chain invariant under the six transformations). The older *_all* theorems are about "
+             "the 26 rules run ALONE (said in each doc comment); Silent counts recorded errors only, the exception flag is an explicit conjunct "
+             "of the chain statements. Structural theorems for EVERY rule list: typeinfo_balanced / selections_balanced / definitions_balanced, "
+             "skip_reports (a rule that skips has just added an error), rule_single_field_subscriptions_declarative_iff (CollectFields restricted to keys = "
+             "reachable response keys). TIED by correspondence (model chain vs validate_ast: verdict on every document; set of reporting rules on documents "
+             "with at most one injected violation; every rule standalone; memoised vs un-memoised model cross-check per document; schema and rule-instance "
+             "histories; derived schemas) and by the direct oracle on the real code: valid-by-construction => no error, each of 46 labelled single-rule "
+             "violations => an error attributable to that rule, verdict unchanged under the six transformations (+ whitespace/comma/comment re-spelling), "
+             "deterministic block memo_mode_table (memo key = triple)."),
+    "note": ("Trusted: Lean kernel; generators / injectors (validity by construction, one labelled violation each); is_subtype / types_overlap hand-modelled "
+             "(re-extracted where the translator applies). ONLY EXERCISED (no theorem): that the chain raises no exception (the crash = none conjunct of "
+             "verdictM_iff_spec; every raising input of the real validator is reported by the correspondence); the un-memoised half of OverlapMemoNeutralStatement on documents whose "
+             "fragment table has a cycle of bare spreads (OverlapMemoNeutralOpenRegion; cross-checked per document, memo:crosscheck); documents with __schema { .. } / __type { .. } sub-selections are outside the "
+             "clause-level statements (ParentsAgree is false there and the rule's equivalence fails without it: memo_iff_needs_parentsAgree; counted, "
+             "compared with the real validator; MetaExtensionStatement is open); fragment variable definitions (parse option) "
+             "are corpus-tested against the real code only (model-does-not-cover:parse-options). Known finding V8 (list literal at a non-list position "
+             "accepted: the code's clause is proved, the specification's clause refuted). Repaired on the way: V3, V4, V7, V9, V10, V11, H3, H5, H6, "
+             "enter_list_value (C06/1, C06/2), overlap memo (fix 7e75356)."),
+    "technique": ("Lean 4 proof (all 26 rules: model silent <=> declarative clause, memoised overlap search included; verdict of the chain = conjunction "
+                  "of the rules alone; attribution; invariance under six transformations) + full-chain model correspondence + labelled-violation / metamorphic oracle"),
+})
